@@ -13,7 +13,13 @@ import (
 	"github.com/inbucket/inbucket/v3/pkg/vrt/vsched"
 
 	"verif/fw"
+	"verif/sys"
 )
+
+func init() {
+	// server-side sessions started by the harness are managed goroutines in this build
+	sys.Spawn = vsched.Go
+}
 
 // schedResult is what one controlled execution yields.
 type schedResult struct {
